@@ -3,8 +3,8 @@ package main
 // C10 — stopping: stop plumbing and deletion scope.
 
 import (
-	"strings"
 	"go/token"
+	"strings"
 
 	"trzszlint/xssa"
 )
